@@ -200,7 +200,7 @@ func c18Write(c *explore.Ctx, sizes []int) {
 
 func runC18(c *explore.Ctx) {
 	c.Level = "exploration"
-	c.Rule = "E5: every sequence of <=3 binary websocket messages with sizes 0..6 x every cyclic pattern of <=3 Read sizes 1..7, plus boundary message sizes around the 1024-byte bufio reader x boundary read sizes, plus text messages at every position, fed through the broker's real upgrader and wsConn adapter (frames built by an independent RFC 6455 framer); concatenation of reads must equal concatenation of binary payloads; writes must come out as unmasked binary frames whose concatenation is the written stream. Broker scope: a valid MQTT stream (CONNECT, SUBSCRIBE, 3 PUBLISH incl. a 1100-byte one, PINGREQ) through the real websocket handler and a real broker under every single cut, every pair of cuts in the first 24/40 bytes, one-byte messages, 1023/1024/1025-byte messages, and packed messages larger than a small max_packet_size: the replies must be exactly CONNACK, SUBACK, the echoed publishes and PINGRESP in binary frames. distinct_nontrivial = cases with more than one payload byte."
+	c.Rule = "E5: every sequence of <=3 binary websocket messages with sizes 0..6 x every cyclic pattern of <=3 Read sizes 1..7, plus boundary message sizes around the 1024-byte bufio reader x boundary read sizes, plus a text message (0, 1, 4 bytes) after every sequence of <=2 binary messages of 0, 1, 3 bytes (empty ones included), fed through the broker's real upgrader and wsConn adapter (frames built by an independent RFC 6455 framer); concatenation of reads must equal concatenation of binary payloads; writes must come out as unmasked binary frames whose concatenation is the written stream. Broker scope: a valid MQTT stream (CONNECT, SUBSCRIBE, 3 PUBLISH incl. a 1100-byte one, PINGREQ) through the real websocket handler and a real broker under every single cut, every pair of cuts in the first 24/40 bytes, one-byte messages, 1023/1024/1025-byte messages, and packed messages larger than a small max_packet_size: the replies must be exactly CONNACK, SUBACK, the echoed publishes and PINGRESP in binary frames. distinct_nontrivial = cases with more than one payload byte."
 	c.Trusted = []string{"harness RFC 6455 framer/parser", "in-memory conn"}
 	var msgSeqs [][]wsMsg
 	var rec func(cur []wsMsg)
@@ -269,7 +269,14 @@ func runC18(c *explore.Ctx) {
 		}
 	}
 	// text messages at every position among small binary ones
-	for _, pre := range [][]wsMsg{nil, {{size: 3}}, {{size: 2}, {size: 5}}} {
+	pres := [][]wsMsg{nil, {{size: 2}, {size: 5}}}
+	for _, a := range []int{0, 1, 3} {
+		pres = append(pres, []wsMsg{{size: a}})
+		for _, b := range []int{0, 1, 3} {
+			pres = append(pres, []wsMsg{{size: a}, {size: b}})
+		}
+	}
+	for _, pre := range pres {
 		for _, ts := range []int{0, 1, 4} {
 			for _, r := range []int{1, 2, 7, 1024} {
 				bcs = append(bcs, bc{append(append([]wsMsg{}, pre...), wsMsg{size: ts, text: true}, wsMsg{size: 2}), []int{r}})
